@@ -7,7 +7,7 @@
 From Coq Require Import String.
 From UV Require Import Base.Common Model.Padding Model.Marshal.
 From UV Require Import Model.Wire Model.Varint Model.Ext Model.FromRaw Model.Import Model.Json
-  Proofs.FromRawP Proofs.ImportP Proofs.JsonP.
+  Model.SetVers Proofs.FromRawP Proofs.ImportP Proofs.JsonP Proofs.SetVersP.
 Open Scope N_scope.
 Open Scope list_scope.
 
@@ -63,6 +63,26 @@ Print Assumptions C07_valid_usable.
 Theorem C07_read_within_buffer : forall (e : ext) (n : N) (b : bytes), ext_read e n = Ok b -> blen b <= n.
 Proof. exact ext_read_le. Qed.
 Print Assumptions C07_read_within_buffer.
+
+(* Applying a spec starts with UConn.SetTLSVers(TLSVersMin, TLSVersMax, Extensions) and
+   makeSupportedVersions: no version pair (in particular no record-layer version / legacy_version
+   pair FromRaw stored, in either order) and no extension list makes them panic; an unusable
+   range is an ordinary error or a (useless) wrapped list. *)
+Theorem C07_no_panic_set_tls_vers : forall (minV maxV : N) (es : list ext) (p : N),
+  set_tls_vers minV maxV es <> Panic p.
+Proof. intros minV maxV es. apply np_neq. exact (set_tls_vers_np minV maxV es). Qed.
+Print Assumptions C07_no_panic_set_tls_vers.
+
+Theorem C07_valid_usable_versions : forall (f : fp_flags) (raw : bytes) (s : spec) (p : N),
+  fingerprint f raw = Ok s -> spec_set_tls_vers s <> Panic p.
+Proof. intros f raw s p _. apply C07_no_panic_set_tls_vers. Qed.
+Print Assumptions C07_valid_usable_versions.
+
+Theorem C07_supported_versions_ordered_range : forall mn mx l,
+  769 <= mn <= 772 -> 769 <= mx <= 772 -> mn <= mx ->
+  make_supported_versions mn mx = Ok l -> N.of_nat (length l) = mx - mn + 1.
+Proof. exact make_supported_versions_len. Qed.
+Print Assumptions C07_supported_versions_ordered_range.
 
 (* ---- the code as shipped (findings F-07a, F-07b; replayed on the real code by the runner) ---- *)
 Definition C07_import_full_shipped : Prop :=
@@ -131,3 +151,11 @@ Example C07_ex_shipped_holds_if_satisfiable :
   blen [10; 10; 0; 1] <= 4 /\ blen [10; 10; 0; 1] mod 4 = 0 /\
   key_share_fixed_data false [10; 10; 0; 1] 4 = Ok [0; 5; 10; 10; 0; 1; 0].
 Proof. vm_compute. repeat split; intros; discriminate || reflexivity. Qed.
+
+(* record-layer version 0x0303 above legacy_version 0x0301, no supported_versions: min > max.
+   SetTLSVers does not panic; it installs a wrapped 65534-entry list (the build fails later with an error). *)
+Example C07_ex_inverted_versions :
+  match set_tls_vers 771 769 [] with Ok (mn, mx, sv) => (mn =? 771) && (mx =? 769) && (N.of_nat (length sv) =? 65535) | _ => false end = true
+  /\ set_tls_vers 0 0 [ESupportedVersions [2570; 772; 771]] = Ok (771, 772, [772; 771])
+  /\ set_tls_vers 768 771 [] = Err E_VERS_MIN.
+Proof. repeat split; vm_compute; reflexivity. Qed.
